@@ -456,7 +456,10 @@ func (s *State) IPv6Autoconf(iface string) (bool, error) {
 		e.Err = err.Error()
 	}
 	s.Tr.Add(e)
-	return v, err
+	if err != nil {
+		return false, err // a failed read carries no value
+	}
+	return v, nil
 }
 
 func (s *State) SetIPv6Autoconf(iface string, enable bool) error {
